@@ -9,9 +9,11 @@ git apply "$SD/patch.diff" || { echo "PATCH-DOES-NOT-APPLY"; exit 2; }
 suite=$(cargo test --workspace --no-fail-fast --offline 2>&1 | grep -E "^test result" | awk '{s+=$4; f+=$6} END {print s, f}')
 mkdir -p $CR/tests && cp "$SD/demo.rs" $CR/tests/seed_demo.rs
 pkg=$(grep -m1 '^name' $CR/Cargo.toml | sed 's/.*"\(.*\)"/\1/')
+cargo build -q --offline -p xml-xpath --examples 2>/dev/null
 with=$(cargo test -p $pkg --test seed_demo --offline 2>&1 | grep -E "^test result" | awk '{s+=$4; f+=$6} END {print s, f}')
 git checkout -q -- . ; rm -f $CR/tests/seed_demo.rs
 cp "$SD/demo.rs" $CR/tests/seed_demo.rs
+cargo build -q --offline -p xml-xpath --examples 2>/dev/null
 without=$(cargo test -p $pkg --test seed_demo --offline 2>&1 | grep -E "^test result" | awk '{s+=$4; f+=$6} END {print s, f}')
 rm -f $CR/tests/seed_demo.rs; git checkout -q -- . ; git clean -fdq
 echo "suite_with_patch(pass fail)=$suite demo_with_patch=$with demo_without=$without"
